@@ -226,6 +226,36 @@ def _gen_body(ctx, p, g):
                 ctx.require(k == comb(n, d + 2, exact=True), f"{g}: p=1 did not produce all simplices of that order")
             if pr == 0 and all(q == 0 for q in ps[d:]):
                 ctx.require(k == 0, f"{g}: p=0 (and above) produced simplices of that order")
+    elif g in ("random_flag_complex", "random_flag_complex_d2"):
+        n, pr = p["n"], p["p"]
+        if g == "random_flag_complex":
+            S = _run(ctx, lambda: xgi.random_flag_complex(n, pr, max_order=p["max_order"], seed=p["seed"]))
+            mo = p["max_order"]
+        else:
+            S = _run(ctx, lambda: xgi.random_flag_complex_d2(n, pr, seed=p["seed"]))
+            mo = 2
+        ctx.require(list(S._node) == list(range(n)), f"{g}: node set is not exactly range(n)")
+        ctx.require(not inv_S(S) and not nets.inv_H(S), f"{g}: result is not a downward-closed duplicate-free complex")
+        vals = [set(m) for m in S._edge.values()]
+        G = nx.Graph()
+        G.add_nodes_from(range(n))
+        G.add_edges_from(tuple(v) for v in vals if len(v) == 2)
+        cliques = [set(c) for c in nx.enumerate_all_cliques(G) if 2 <= len(c) <= mo + 1]
+        ctx.require(all(v in cliques for v in vals) and all(c in vals for c in cliques), f"{g}: not exactly the cliques of its 1-skeleton up to max_order")
+        if pr == 0:
+            ctx.require(len(vals) == 0, f"{g}: p=0 produced simplices")
+        if pr == 1:
+            ctx.require(len([v for v in vals if len(v) == 2]) == comb(n, 2, exact=True), f"{g}: p=1 did not produce the complete graph")
+    elif g == "shuffle_hyperedges":
+        H0 = xgi.Hypergraph()
+        H0.add_nodes_from(range(p["n"]))
+        for e in p["edges"]:
+            H0.add_edge(e)
+        R = _run(ctx, lambda: xgi.shuffle_hyperedges(H0, p["order"], p["p"]))
+        ctx.require(list(R._node) == list(range(p["n"])), f"{g}: node set changed")
+        ctx.require(sorted(len(m) for m in R._edge.values()) == sorted(len(e) for e in p["edges"]), f"{g}: the edge sizes changed")
+        ctx.require(all(all(x in R._node for x in m) for m in R._edge.values()) and not nets.inv_H(R), f"{g}: an edge contains a non-node or the incidence invariant is broken")
+        ctx.require([set(m) for m in H0._edge.values()] == [set(e) for e in p["edges"]], f"{g}: changed its input")
     elif g == "flag_complex_history":
         G = nx.Graph()
         G.add_nodes_from(range(p["n"]))
@@ -476,6 +506,15 @@ def spec(tier, seed):
         for which, mo in (("flag_complex", 2), ("flag_complex", 3), ("flag_complex_d2", 2)):
             for edit in ("add", "remove"):
                 units.append(("C16.gen", {"gen": "flag_complex_history", "n": n, "links": links, "max_order": mo, "which": which, "edit": edit}))
+    for n in (3, 4):
+        for pr in (0, 1, 0.5):
+            for sd in (1, 2):
+                units.append(("C16.gen", {"gen": "random_flag_complex_d2", "n": n, "p": pr, "seed": sd}))
+                for mo in (2, 3):
+                    units.append(("C16.gen", {"gen": "random_flag_complex", "n": n, "p": pr, "max_order": mo, "seed": sd}))
+    for edges, order in (([[0, 1], [1, 2], [0, 1, 2]], 1), ([[0, 1], [2, 3], [0, 2, 3]], 2), ([[0, 1], [1, 2]], 1)):
+        for pr in (0, 0.5, 1):
+            units.append(("C16.gen", {"gen": "shuffle_hyperedges", "n": 4, "edges": edges, "order": order, "p": pr}))
     for u in units:
         u[1].setdefault("shape", None)
         u[1].setdefault("kind", u[1].get("gen"))
